@@ -1,5 +1,7 @@
 import SynKitModel.Stoich
 import SynKitProofs.StoichLemmas
+import SynKitModel.BipGraph
+import SynKitProofs.BipGraphLemmas
 /-!
 # C17 — stoichiometric analysis agrees with exact linear algebra
 
@@ -15,6 +17,13 @@ say that an accepted certificate proves the exact statement, stated with **Mathl
 
 * clause "S has one row per species, one column per reaction, entry produced − consumed, and
   agrees with the network's own incidence matrix": `buildS_shape`, `buildS_entry`, `buildS_orders`;
+* the same clause when the network is handed over as a plain bipartite NetworkX graph
+  (`DiGraph` / `MultiDiGraph` / `Graph` / `MultiGraph`, arcs in either direction, `kind` and/or
+  `bipartite` flag, optional `label` / `stoich`): the graph reading (`SynKitModel/BipGraph.lean`)
+  is `build_S` of the network the graph describes — `graphS_eq_buildS`,
+  `graphS_eq_buildS_upto_ties`, and it does not depend on how the graph is written —
+  `graphS_orientation_invariant`, `graphS_undirected_eq_directed`, `graphS_missing_stoich`
+  (section "The graph entry path" at the end of this file);
 * clause "reported rank = exact rank": `checkRank_sound` (+ correspondence);
 * clause "kernel bases have dimensions n_species − rank, n_reactions − rank; every basis vector
   annihilates S": `kernel_dims`, `checkKernelBasis_sound` (+ correspondence; annihilation of the
@@ -416,3 +425,152 @@ theorem C17.full : C17.FullStatement := by
     exact consistent_logic_iff m n k S R eps tol lp hn h0 h1 ht hK hS hlp hans
 
 end SynKit.Stoich
+
+/-! ## The graph entry path
+
+C17 quantifies over every reaction network; the theorems above take the network as a `Net`. The
+code also accepts a plain bipartite NetworkX graph. These theorems tie the model of that entry
+path (`SynKitModel/BipGraph.lean`: `_as_bipartite`, `_split_species_reactions`,
+`_species_and_reaction_order`, `build_S_minus_plus`) to the network-level model, so that every
+statement about `buildS N` is a statement about `build_S(G)` for `N = netOfGraph G`. -/
+namespace SynKit.BipGraph
+open SynKit.Stoich
+
+/-- **C17, clause "S has one row per species, one column per reaction, entry produced −
+consumed", graph input.** For a well-formed bipartite graph (node ids distinct, species labels
+distinct, coefficients non-negative; arcs not joining a species node to a reaction node, and roles
+other than `"reactant"` / `"product"`, are ignored on both sides) whose reaction labels are
+pairwise distinct, the code's reading of the graph is the network-level model applied to the
+described network `netOfGraph g`: `S⁻`, `S⁺`, `S = S⁺ − S⁻` and the full result of `build_S`
+(species labels, reaction labels, matrix, or `ValueError`) coincide, rows and columns in the
+same order. The only order hypothesis is `ReactionLabelsDistinct`: with tied reaction labels the
+graph keeps tied columns in `G.nodes` order while the network model keeps them in reaction-id
+order (see `graphS_eq_buildS_upto_ties`). -/
+theorem graphS_eq_buildS (g : BipGraph) (wf : WF g) (hr : ReactionLabelsDistinct g) :
+    graphSMinus g = buildSMinus (netOfGraph g) ∧ graphSPlus g = buildSPlus (netOfGraph g) ∧
+    graphS g = matSub (buildSPlus (netOfGraph g)) (buildSMinus (netOfGraph g)) ∧
+    graphBuildS g = buildS (netOfGraph g) := graphS_eq_buildS' g wf hr
+
+/-- **C17, same clause, reaction labels possibly tied.** Without any hypothesis on reaction
+labels: rows are the species order of the described network; the graph's columns `cols` are a
+permutation of the network's column order carrying the same sequence of rule labels (so the two
+orders differ at most inside groups of equally labelled reactions); and `S⁻`, `S⁺` are the
+consumed / produced counts of the described network laid out over those rows and columns. -/
+theorem graphS_eq_buildS_upto_ties (g : BipGraph) (wf : WF g) :
+    let N := netOfGraph g
+    let cols := (reactionCols g).map (edgeOfNode g)
+    rowLabels g = speciesOrder N ∧
+    cols.Perm (rxnOrder N) ∧ cols.map (·.rule) = (rxnOrder N).map (·.rule) ∧
+    colLabels g = (rxnOrder N).map (·.rule) ∧
+    graphSMinus g = ((speciesOrder N).map fun x => cols.map fun e => sumCoeff e.reactants x) ∧
+    graphSPlus g = ((speciesOrder N).map fun x => cols.map fun e => sumCoeff e.products x) :=
+  graphS_eq_buildS_upto_ties' g wf
+
+/-- **C17, graph input: direction of the arcs is irrelevant.** Reversing any subset of the arcs
+of a directed graph (`DiGraph` / `MultiDiGraph`) changes nothing `build_S_minus_plus` / `build_S`
+return. For a non-multi `DiGraph` the hypothesis `ArcsSimple` (before and after) says that no two
+arcs occupy the same ordered pair, i.e. NetworkX overwrites nothing; it is necessary (second
+example below). -/
+theorem graphS_orientation_invariant (g g' : BipGraph) (hn : g'.nodes = g.nodes)
+    (hd : g.directed = true) (hd' : g'.directed = true) (hm : g'.multi = g.multi)
+    (ha : Reoriented g.arcs g'.arcs) (hs : g.multi = true ∨ (ArcsSimple g ∧ ArcsSimple g')) :
+    graphSMinus g' = graphSMinus g ∧ graphSPlus g' = graphSPlus g ∧ graphS g' = graphS g ∧
+    graphBuildS g' = graphBuildS g := graphS_orientation_invariant' g g' hn hd hd' hm ha hs
+
+/-- **C17, graph input: undirected = directed (repaired F27 / F28 / F37).** An undirected graph
+(`Graph` / `MultiGraph`) and the directed graph of the same class of multiplicity holding the same
+edges, each written in an arbitrary direction, give the same `S⁻`, `S⁺`, `S`, `build_S` result:
+`_as_bipartite` + `build_S_minus_plus` count every undirected edge exactly once, parallel edges of
+a `MultiGraph` all count. -/
+theorem graphS_undirected_eq_directed (g g' : BipGraph) (hid : IdsDistinct g) (hn : g'.nodes = g.nodes)
+    (hd : g.directed = false) (hd' : g'.directed = true) (hm : g'.multi = g.multi)
+    (ha : Reoriented g.arcs g'.arcs) (hs : g.multi = true ∨ ArcsSimple g) :
+    graphSMinus g' = graphSMinus g ∧ graphSPlus g' = graphSPlus g ∧ graphS g' = graphS g ∧
+    graphBuildS g' = graphBuildS g := graphS_undirected_eq_directed' g g' hid hn hd hd' hm ha hs
+
+/-- **C17, graph input: a missing `stoich` is 1.** Writing `stoich = 1` on every edge that has
+none changes nothing `build_S_minus_plus` / `build_S` return. -/
+theorem graphS_missing_stoich (g g' : BipGraph) (hn : g'.nodes = g.nodes) (hd : g'.directed = g.directed)
+    (hm : g'.multi = g.multi) (ha : g'.arcs = g.arcs.map BArc.fillStoich)
+    (hs : g.multi = true ∨ ArcsSimple g) :
+    graphSMinus g' = graphSMinus g ∧ graphSPlus g' = graphSPlus g ∧ graphS g' = graphS g ∧
+    graphBuildS g' = graphBuildS g := graphS_missing_stoich' g g' hn hd hm ha hs
+
+/-! ### Non-vacuity: `2 B → A` with a catalyst `C` on both sides
+
+Nodes are inserted reaction first, species not in label order; `b` is typed by the flag only, `c`
+carries `kind = "species"` and a contradicting flag, `a` has no label. The edges of `B` and of the
+catalyst (reactant side) are written without / with `stoich`, the product edge of `A` without. -/
+
+def exNodes : List BNode :=
+  [⟨"r", some "reaction", none, some "R"⟩, ⟨"c", some "species", some 1, some "C"⟩,
+   ⟨"b", none, some 0, some "B"⟩, ⟨"a", some "species", none, none⟩]
+
+/-- canonical orientation: reactant `species → reaction`, product `reaction → species` -/
+def exArcs : List BArc :=
+  [⟨"b", "r", some "reactant", some 2⟩, ⟨"r", "a", some "product", none⟩,
+   ⟨"c", "r", some "reactant", none⟩, ⟨"r", "c", some "product", some 1⟩]
+
+/-- the `B` edge and the product edge of the catalyst written the other way round -/
+def exArcsFlipped : List BArc :=
+  [⟨"r", "b", some "reactant", some 2⟩, ⟨"r", "a", some "product", none⟩,
+   ⟨"c", "r", some "reactant", none⟩, ⟨"c", "r", some "product", some 1⟩]
+
+def exDi : BipGraph := ⟨exNodes, exArcs, true, false⟩
+def exMultiDi : BipGraph := ⟨exNodes, exArcs, true, true⟩
+def exMultiDiFlipped : BipGraph := ⟨exNodes, exArcsFlipped, true, true⟩
+def exMulti : BipGraph := ⟨exNodes, exArcsFlipped, false, true⟩
+/-- `nx.Graph`: one edge per pair, so the network is written without the reactant edge of `C` -/
+def exGraph : BipGraph := ⟨exNodes, exArcsFlipped.take 2 ++ [⟨"c", "r", some "product", none⟩], false, false⟩
+def exDiOfGraph : BipGraph := ⟨exNodes, exArcs.take 2 ++ [⟨"r", "c", some "product", none⟩], true, false⟩
+
+theorem exReoriented : Reoriented exArcs exArcsFlipped := .flip _ (.keep _ (.keep _ (.flip _ .nil)))
+
+/-- (a) on the `DiGraph`, the `MultiGraph` and the `Graph`: hypotheses hold, both sides are the
+expected `Ok` value (the catalyst cancels in `S` and shows in `S⁻`, `S⁺`). -/
+example : wfB exDi = true ∧ wfB exMulti = true ∧ wfB exGraph = true ∧
+    graphBuildS exDi = .ok ⟨["B", "C", "a"], ["R"], [[-2], [0], [1]]⟩ ∧
+    buildS (netOfGraph exDi) = .ok ⟨["B", "C", "a"], ["R"], [[-2], [0], [1]]⟩ ∧
+    graphSMinus exDi = [[2], [1], [0]] ∧ graphSPlus exDi = [[0], [1], [1]] ∧
+    graphBuildS exMulti = .ok ⟨["B", "C", "a"], ["R"], [[-2], [0], [1]]⟩ ∧
+    graphSMinus exMulti = [[2], [1], [0]] ∧ buildSMinus (netOfGraph exMulti) = [[2], [1], [0]] ∧
+    graphBuildS exGraph = .ok ⟨["B", "C", "a"], ["R"], [[-2], [1], [1]]⟩ ∧
+    buildS (netOfGraph exGraph) = .ok ⟨["B", "C", "a"], ["R"], [[-2], [1], [1]]⟩ := by decide
+
+example : WF exMulti ∧ ReactionLabelsDistinct exMulti := wf_of_wfB _ (by decide)
+
+/-- (b): hypotheses satisfiable on a `MultiDiGraph`, and both readings are the expected matrix. -/
+example : exMultiDiFlipped.nodes = exMultiDi.nodes ∧ exMultiDi.multi = true ∧
+    Reoriented exMultiDi.arcs exMultiDiFlipped.arcs ∧
+    graphS exMultiDiFlipped = [[-2], [0], [1]] ∧ graphS exMultiDi = [[-2], [0], [1]] :=
+  ⟨rfl, rfl, exReoriented, by decide, by decide⟩
+
+/-- (b): the side condition is necessary. On a non-multi `DiGraph` the same reversal makes the
+product arc of the catalyst overwrite its reactant arc (`ArcsSimple` fails after the reversal) and
+the matrix changes — NetworkX's behaviour, not the reader's. -/
+example : ArcsSimple exDi ∧ ¬ ArcsSimple ⟨exNodes, exArcsFlipped, true, false⟩ ∧
+    graphS exDi = [[-2], [0], [1]] ∧
+    graphS ⟨exNodes, exArcsFlipped, true, false⟩ = [[-2], [1], [1]] := by decide
+
+/-- (c): `MultiGraph` vs `MultiDiGraph`, and `Graph` vs `DiGraph`, edges written in different
+directions: hypotheses hold and the matrices are the expected ones. -/
+example : IdsDistinct exMulti ∧ exMulti.directed = false ∧ exMultiDi.directed = true ∧
+    Reoriented exMultiDi.arcs exMulti.arcs ∧
+    graphSMinus exMulti = [[2], [1], [0]] ∧ graphSMinus exMultiDi = [[2], [1], [0]] ∧
+    graphSPlus exMulti = [[0], [1], [1]] ∧ graphSPlus exMultiDi = [[0], [1], [1]] ∧
+    IdsDistinct exGraph ∧ ArcsSimple exGraph ∧
+    graphS exGraph = [[-2], [1], [1]] ∧ graphS exDiOfGraph = [[-2], [1], [1]] :=
+  ⟨by decide, rfl, rfl, exReoriented, by decide, by decide, by decide, by decide, by decide,
+    by decide, by decide, by decide⟩
+
+/-- (d): two of the four edges have no `stoich`; spelling it out gives the same result. -/
+example : exMulti.arcs.map BArc.fillStoich ≠ exMulti.arcs ∧
+    graphBuildS ⟨exNodes, exMulti.arcs.map BArc.fillStoich, false, true⟩ = graphBuildS exMulti := by
+  decide
+
+/-- The `ValueError` branch agrees too: a graph without reaction nodes. -/
+example : graphBuildS ⟨[⟨"a", some "species", none, none⟩], [], true, false⟩ = .error .valueError ∧
+    buildS (netOfGraph ⟨[⟨"a", some "species", none, none⟩], [], true, false⟩) = .error .valueError := by
+  decide
+
+end SynKit.BipGraph
